@@ -14,11 +14,11 @@ RULE = ("generated strongly connected street graphs with strongly varying speeds
         "construction; every third graph has uniform speeds, where the search estimate is tight) and the shipped Denver graph; each case asks one "
         "network object a sequence of queries: random link pairs plus 'fans' (every link into and out of one junction as destination, from 1-3 "
         "origins, so that many destinations share a cell); for link pairs (a, b): travel time of the inner part of route(a.start -> b.end), summed from "
-        "the graph's own travel_time attributes, must equal the minimum travel time between a's end junction and b's start junction computed by "
+        "the input's travel_time attributes (length / speed where an edge has none), must equal the minimum travel time between a's end junction and b's start junction computed by "
         "an independent heapq Dijkstra written for the harness (rel. tol 1e-9). non-trivial = junction pair whose fastest path is not a "
         "fewest-links path; distinct = sha1(case)")
 ASSUMPTIONS = ["no parallel edges in generated graphs (the link table keeps one link per ordered node pair); on Denver the cheaper of two parallel edges is the reference",
-               "edge travel times are the ones OSMRoadNetwork itself validated / filled in (length / speed when missing)",
+               "edge travel times are computed from the input data: the travel_time attribute, else length / speed_kmph (default speed 40 km/h when an edge has no speed)",
                "PYTHONHASHSEED pinned to 0"]
 FLOORS = {"quick": {"pairs": 2000, "flag:fastest_is_not_fewest_links": 150}, "thorough": {"pairs": 100000}}
 
@@ -43,7 +43,8 @@ def check_case(case: Dict[str, Any]) -> Tuple[List[Violation], Set[str], Dict[st
     flags: Set[str] = set()
     stats = collections.Counter()
     rn = graphs.denver_network(res=case.get("res", 15)) if case["net"] == "denver" else graphs.build_network(case["graph"], res=case.get("res", 15))
-    edges = graphs.edge_table(rn)
+    # link times come from the input data (travel_time attribute, else length / speed), not from what the network stored
+    edges = graphs.edge_table_from_input("denver" if case["net"] == "denver" else case["graph"])
     links = graphs.sorted_links(rn)
     queries = [(links[ai % len(links)], links[bi % len(links)], "end") for ai, bi in case["pairs"]]
     nodes = sorted({int(l.link_id.split("-")[0]) for l in links})
